@@ -1,1 +1,207 @@
 // Kani contract harnesses for /repo/arrow-ord/src/cmp.rs (child module: sees private items via super::)
+use super::*;
+use arrow_buffer::Buffer;
+#[path = "/verif/kani/support/spec.rs"]
+mod spec;
+use spec::*;
+
+// Contract (C10): collect_bool(len, neg, f) packs bit i of the result as f(i) XOR neg for every i < len, the
+// result has length `len` and offset 0 -- at concrete lengths around the 64-bit chunk boundary (0, 1, 63, 64,
+// 65, 70); the predicate (an arbitrary bit table), `neg` and the probed index are symbolic. Reaches the
+// full-chunk closure (len >= 64), the remainder block (len % 64 != 0) and the empty case.
+fn collect_bool_at<const LEN: usize, const NB: usize>() {
+    let table: [u8; NB] = kani::any();
+    let neg: bool = kani::any();
+    let b = collect_bool(LEN, neg, |i| bit(&table, i));
+    assert!(b.len() == LEN && b.offset() == 0);
+    if LEN > 0 {
+        let i: usize = kani::any();
+        kani::assume(i < LEN);
+        assert!(b.value(i) == (bit(&table, i) != neg));
+        kani::cover!(i == LEN - 1 && neg && b.value(i));
+        kani::cover!(i == 0 && !neg && b.value(i));
+        kani::cover!(LEN < 65 || (i == 63 && b.value(63) && !b.value(64)));
+        kani::cover!(LEN < 65 || i == 64);
+    }
+    kani::cover!(neg);
+    kani::cover!(!neg);
+}
+macro_rules! collect_bool_unit {
+    ($name:ident, $len:expr) => {
+        #[kani::proof]
+        fn $name() { collect_bool_at::<$len, { $len / 8 + 1 }>() }
+    };
+}
+// @unit name=collect_bool_0 props=C10 kind=bounded bound=len_0 fns=collect_bool timeout=600 tier=thorough note=not_confirmed_under_load
+collect_bool_unit!(collect_bool_0, 0);
+// @unit name=collect_bool_1 props=C10 kind=bounded bound=len_1 fns=collect_bool timeout=600 tier=thorough note=not_confirmed_under_load
+collect_bool_unit!(collect_bool_1, 1);
+// @unit name=collect_bool_63 props=C10 kind=bounded bound=len_63 fns=collect_bool timeout=600 tier=thorough note=not_confirmed_under_load
+collect_bool_unit!(collect_bool_63, 63);
+// @unit name=collect_bool_64 props=C10 kind=bounded bound=len_64 fns=collect_bool timeout=600 tier=thorough note=not_confirmed_under_load
+collect_bool_unit!(collect_bool_64, 64);
+// @unit name=collect_bool_65 props=C10 kind=bounded bound=len_65 fns=collect_bool timeout=600 tier=thorough note=not_confirmed_under_load
+collect_bool_unit!(collect_bool_65, 65);
+// @unit name=collect_bool_70 props=C10 kind=bounded bound=len_70 fns=collect_bool timeout=600 tier=thorough note=not_confirmed_under_load
+collect_bool_unit!(collect_bool_70, 70);
+
+fn any_op() -> (Op, u8) {
+    let k: u8 = kani::any();
+    kani::assume(k < 8);
+    (match k { 0 => Op::Equal, 1 => Op::NotEqual, 2 => Op::Less, 3 => Op::LessEqual, 4 => Op::Greater, 5 => Op::GreaterEqual, 6 => Op::Distinct, _ => Op::NotDistinct }, k)
+}
+/// the predicate each Op denotes on the (total) key order -- the documented meaning of eq/neq/lt/lt_eq/gt/gt_eq
+/// and of (not_)distinct on two non-null values
+fn spec_op<K: Ord>(k: u8, a: K, b: K) -> bool {
+    match k { 0 | 7 => a == b, 1 | 6 => a != b, 2 => a < b, 3 => a <= b, 4 => a > b, _ => a >= b }
+}
+const NO_SIDE: SideInfo<'static> = SideInfo { is_scalar: false, dict: None, ree: None };
+const SCALAR_SIDE: SideInfo<'static> = SideInfo { is_scalar: true, dict: None, ree: None };
+
+// Contract (C10): apply(op, l, l_side, r, r_side) over `&[T]` ArrayOrd operands without dictionary / REE
+// indirection, for a symbolic Op among all eight {Equal, NotEqual, Less, LessEqual, Greater, GreaterEqual,
+// Distinct, NotDistinct}: the returned value buffer has the length of the non-scalar side (1 if both are
+// scalars) and bit i == spec_op(op)(key(l_i), key(r_i)) where a scalar side contributes its single value and
+// key is the native total order (i32: mathematical; f32: IEEE totalOrder key -- so NaN == NaN, -0.0 < +0.0).
+// LL / LR are the concrete operand lengths (1 for a scalar side). This covers the operand swap + negation
+// encoding of LessEqual / Greater / GreaterEqual in `apply`, and apply_op's four scalar/array forms.
+macro_rules! apply_unit {
+    ($name:ident, $t:ty, $ll:expr, $lr:expr, $ls:expr, $rs:expr, $key:expr) => {
+        #[kani::proof]
+        fn $name() {
+            let l: [$t; $ll] = kani::any();
+            let r: [$t; $lr] = kani::any();
+            let (op, k) = any_op();
+            let out = apply(op, &l[..], if $ls { &SCALAR_SIDE } else { &NO_SIDE }, &r[..], if $rs { &SCALAR_SIDE } else { &NO_SIDE });
+            let b = match out { Some(b) => b, None => { assert!(false); return; } };
+            let n = if $ls { if $rs { 1 } else { $lr } } else { $ll };
+            assert!(b.len() == n);
+            let i: usize = kani::any();
+            kani::assume(i < n);
+            let key = $key;
+            let (x, y) = (l[if $ls { 0 } else { i }], r[if $rs { 0 } else { i }]);
+            assert!(b.value(i) == spec_op(k, key(x), key(y)));
+            kani::cover!(k == 3 && b.value(i) && key(x) == key(y));
+            kani::cover!(k == 4 && b.value(i));
+            kani::cover!(k == 5 && !b.value(i));
+            kani::cover!(k == 6 && b.value(i));
+            kani::cover!(k == 7 && b.value(i));
+            kani::cover!(k == 2 && b.value(i) && i == n - 1);
+        }
+    };
+}
+// @unit name=apply_i32_aa props=C10 kind=bounded bound=4_vs_4_values fns=apply,apply_op,collect_bool timeout=600 tier=thorough note=not_confirmed_under_load
+apply_unit!(apply_i32_aa, i32, 4, 4, false, false, |x: i32| x as i64);
+// @unit name=apply_i32_sa props=C10 kind=bounded bound=scalar_vs_4_values fns=apply,apply_op,scalar_index,collect_bool timeout=600 tier=thorough note=not_confirmed_under_load
+apply_unit!(apply_i32_sa, i32, 1, 4, true, false, |x: i32| x as i64);
+// @unit name=apply_i32_as props=C10 kind=bounded bound=4_values_vs_scalar fns=apply,apply_op,scalar_index,collect_bool timeout=600 tier=thorough note=not_confirmed_under_load
+apply_unit!(apply_i32_as, i32, 4, 1, false, true, |x: i32| x as i64);
+// @unit name=apply_i32_ss props=C10 kind=bounded bound=scalar_vs_scalar fns=apply,apply_op,scalar_index timeout=600 tier=thorough note=not_confirmed_under_load
+apply_unit!(apply_i32_ss, i32, 1, 1, true, true, |x: i32| x as i64);
+// @unit name=apply_f32_aa props=C10 kind=bounded bound=3_vs_3_values fns=apply,apply_op,collect_bool timeout=600 tier=thorough note=not_confirmed_under_load
+apply_unit!(apply_f32_aa, f32, 3, 3, false, false, |x: f32| key32(x.to_bits()));
+// @unit name=apply_f32_as props=C10 kind=bounded bound=3_values_vs_scalar fns=apply,apply_op,scalar_index,collect_bool timeout=600 tier=thorough note=not_confirmed_under_load
+apply_unit!(apply_f32_as, f32, 3, 1, false, true, |x: f32| key32(x.to_bits()));
+
+// Contract (C10): floats compare by totalOrder inside the kernels: for the f32 array-array form, Equal holds
+// between two NaNs exactly when their bit patterns agree, and -0.0 is Less than +0.0 (witnessed by covers).
+// @unit name=apply_f32_nan_zero props=C10 kind=bounded bound=2_vs_2_values fns=apply,apply_op timeout=600 tier=thorough note=not_confirmed_under_load
+#[kani::proof]
+fn apply_f32_nan_zero() {
+    let l: [f32; 2] = kani::any();
+    let r: [f32; 2] = kani::any();
+    let eq = apply(Op::Equal, &l[..], &NO_SIDE, &r[..], &NO_SIDE).unwrap();
+    let lt = apply(Op::Less, &l[..], &NO_SIDE, &r[..], &NO_SIDE).unwrap();
+    assert!(eq.value(0) == (l[0].to_bits() == r[0].to_bits()));
+    assert!(lt.value(1) == (key32(l[1].to_bits()) < key32(r[1].to_bits())));
+    kani::cover!(l[0].is_nan() && r[0].is_nan() && eq.value(0));
+    kani::cover!(l[0].is_nan() && r[0].is_nan() && !eq.value(0));
+    kani::cover!(l[1].to_bits() == 0x8000_0000 && r[1].to_bits() == 0 && lt.value(1));
+    kani::cover!(l[0] == r[0] && !eq.value(0)); // +0.0 vs -0.0: IEEE-equal but not totalOrder-equal
+}
+
+// Contract (C10): apply returns None (caller substitutes an all-false buffer) iff one operand is empty.
+// @unit name=apply_empty props=C10 kind=bounded bound=0_vs_0_and_0_vs_scalar fns=apply timeout=600 tier=thorough note=not_confirmed_under_load
+#[kani::proof]
+fn apply_empty() {
+    let e: [i32; 0] = [];
+    let s: [i32; 1] = kani::any();
+    let (op, _) = any_op();
+    assert!(apply(op, &e[..], &NO_SIDE, &e[..], &NO_SIDE).is_none());
+    assert!(apply(op, &e[..], &NO_SIDE, &s[..], &SCALAR_SIDE).is_none());
+    assert!(apply(op, &s[..], &SCALAR_SIDE, &e[..], &NO_SIDE).is_none());
+    kani::cover!(true);
+}
+
+// Contract (C10): apply_op with an explicit scalar index (the dictionary-scalar case: l_s = Some(idx) selects
+// the value of a 3-element operand): bit i == op(l[idx], r[i]) XOR neg for op in {is_eq, is_lt}, and the
+// mirrored form; idx, neg, the choice of op and all values symbolic.
+// @unit name=apply_op_scalar_idx props=C10 kind=bounded bound=3_values_scalar_index_vs_4_values fns=apply_op,collect_bool timeout=600 tier=thorough note=not_confirmed_under_load
+#[kani::proof]
+fn apply_op_scalar_idx() {
+    let l: [i32; 3] = kani::any();
+    let r: [i32; 4] = kani::any();
+    let idx: usize = kani::any();
+    kani::assume(idx < 3);
+    let neg: bool = kani::any();
+    let use_lt: bool = kani::any();
+    let left_scalar: bool = kani::any();
+    let b = match (use_lt, left_scalar) {
+        (true, true) => apply_op(&l[..], Some(idx), &r[..], None, neg, <&[i32] as ArrayOrd>::is_lt),
+        (false, true) => apply_op(&l[..], Some(idx), &r[..], None, neg, <&[i32] as ArrayOrd>::is_eq),
+        (true, false) => apply_op(&r[..], None, &l[..], Some(idx), neg, <&[i32] as ArrayOrd>::is_lt),
+        (false, false) => apply_op(&r[..], None, &l[..], Some(idx), neg, <&[i32] as ArrayOrd>::is_eq),
+    };
+    assert!(b.len() == 4);
+    let i: usize = kani::any();
+    kani::assume(i < 4);
+    let (x, y) = if left_scalar { (l[idx], r[i]) } else { (r[i], l[idx]) };
+    assert!(b.value(i) == ((if use_lt { x < y } else { x == y }) != neg));
+    kani::cover!(idx == 2 && use_lt && left_scalar && b.value(i) && !neg);
+    kani::cover!(idx == 1 && !use_lt && !left_scalar && b.value(i) && neg);
+}
+
+// Contract (C10): apply_op_vectored(l, l_v, r, r_v, neg, op): result length == l_v.len() and
+// bit i == op(l[l_v[i]], r[r_v[i]]) XOR neg -- 3 + 2 physical values, 4 logical rows with symbolic in-range
+// index vectors, symbolic neg and op in {is_eq, is_lt}.
+// @unit name=apply_op_vectored_4 props=C10 kind=bounded bound=4_rows_over_3_and_2_values fns=apply_op_vectored,collect_bool timeout=600 tier=thorough note=not_confirmed_under_load
+#[kani::proof]
+fn apply_op_vectored_4() {
+    let l: [i32; 3] = kani::any();
+    let r: [i32; 2] = kani::any();
+    let l_v: [usize; 4] = kani::any();
+    let r_v: [usize; 4] = kani::any();
+    let mut k = 0;
+    while k < 4 { kani::assume(l_v[k] < 3 && r_v[k] < 2); k += 1; }
+    let neg: bool = kani::any();
+    let use_lt: bool = kani::any();
+    let b = if use_lt { apply_op_vectored(&l[..], &l_v, &r[..], &r_v, neg, <&[i32] as ArrayOrd>::is_lt) }
+            else { apply_op_vectored(&l[..], &l_v, &r[..], &r_v, neg, <&[i32] as ArrayOrd>::is_eq) };
+    assert!(b.len() == 4);
+    let i: usize = kani::any();
+    kani::assume(i < 4);
+    let (x, y) = (l[l_v[i]], r[r_v[i]]);
+    assert!(b.value(i) == ((if use_lt { x < y } else { x == y }) != neg));
+    kani::cover!(l_v[i] == 2 && r_v[i] == 1 && b.value(i));
+    kani::cover!(l_v[0] == l_v[3] && neg && !b.value(0));
+}
+
+// Contract (C10): the `&BooleanArray` ArrayOrd impl orders false < true: apply over two 4-element boolean
+// arrays (values symbolic), every Op: bit i == spec_op(op)(l_i as u8, r_i as u8). Arrays forgotten.
+// @unit name=apply_bool_aa props=C10 kind=bounded bound=4_vs_4_values fns=apply,apply_op,collect_bool timeout=600 tier=thorough note=not_confirmed_under_load
+#[kani::proof]
+fn apply_bool_aa() {
+    let (lb, rb): (u8, u8) = (kani::any(), kani::any());
+    let l = BooleanArray::new(BooleanBuffer::new(Buffer::from(vec![lb]), 0, 4), None);
+    let r = BooleanArray::new(BooleanBuffer::new(Buffer::from(vec![rb]), 0, 4), None);
+    let (op, k) = any_op();
+    let b = apply(op, &l, &NO_SIDE, &r, &NO_SIDE).unwrap();
+    assert!(b.len() == 4);
+    let i: usize = kani::any();
+    kani::assume(i < 4);
+    assert!(b.value(i) == spec_op(k, (lb >> i) & 1, (rb >> i) & 1));
+    kani::cover!(k == 2 && b.value(i));
+    kani::cover!(k == 5 && b.value(i) && (lb >> i) & 1 == 1 && (rb >> i) & 1 == 1);
+    std::mem::forget(l);
+    std::mem::forget(r);
+}
